@@ -5,6 +5,7 @@ mod obs;
 mod gen;
 mod c01;
 mod c10;
+mod c12;
 mod c18;
 mod c05;
 
@@ -21,6 +22,7 @@ fn main() {
         "C18" => c18::run(&mut sink, thorough, seed),
         "C01" | "C02" | "C09" | "C11" | "C14" | "C19" => c01::run(&mut sink, prop, thorough, seed),
         "C10" => c10::run(&mut sink, thorough, seed),
+        "C12" => c12::run(&mut sink, thorough, seed),
         "C05" => c05::run(&mut sink, thorough, seed),
         "replay" => { /* replay lines are `op args…` on stdin */
             let mut s = String::new();
@@ -44,6 +46,7 @@ fn replay(sink: &mut common::Sink, toks: &[&str]) {
         "ptr" | "ptrmut" | "pidx" => c18::replay(sink, toks),
         "pv" | "pi" => c01::replay(sink, toks),
         "pfx" => c10::replay(sink, toks),
+        "stream" => c12::replay(sink, toks),
         "esc" | "escbufs" | "hex4" | "hex4s" | "scan" => c05::replay(sink, toks),
         _ => eprintln!("cannot replay op {}", toks[0]),
     }
